@@ -88,7 +88,7 @@ def build_trace(obj, events, results):
         elif e["ev"] == "ObsRange":
             steps.append({"ev": "ObsRange", "input": e["input"] + 1, "masked": e["masked"], "field": "obs", "ids": [], "propagated": 0})
         elif e["ev"] == "GetScores":
-            calls.append({"fields": [f.lower() for f in e["fields"]], "input": e["input"] + 1,
+            calls.append({"ev": "GetScores", "fields": [f.lower() for f in e["fields"]], "input": e["input"] + 1,
                           "axis": AXIS.get(e["axis"], e["axis"].lower()),
                           "index": 1 if e["index"] is None else e["index"] + 1, "hit": e["hit"],
                           "ids": [rid(i) for i in e["ids"]],
